@@ -17,7 +17,7 @@ ASSUMPTIONS_COMMON = [
 HOOK_COMMITS = []
 NOT_CLAIMED = {}
 # properties whose check exists but is being adapted (not claimed until it passes on the merged tree)
-HOLD = {"C09": "check being adapted to repairs merged from C12/C13 (vdiff / vpct_change lag 0, vpartition padding); not claimed until it passes"}
+HOLD = {}
 
 # per-property configuration: tools/propcfg/Cxx.py defines CFG (dict) and optionally
 #   compare(cmp, impl_cells, model_cells) -> None | reason   for comparators the driver does not know
